@@ -7,6 +7,7 @@ import (
 	"fmt"
 	"os"
 	"os/exec"
+	"sort"
 	"strings"
 	"testing"
 	"time"
@@ -65,7 +66,7 @@ func (r *Run) RunCold(w *W, scenario string, race bool) {
 	reported := false
 	sc := bufio.NewScanner(&out)
 	sc.Buffer(make([]byte, 1<<20), 1<<24)
-	var tail []string
+	var tail, crash []string
 	for sc.Scan() {
 		line := sc.Text()
 		if strings.HasPrefix(line, coldPrefix) {
@@ -80,6 +81,12 @@ func (r *Run) RunCold(w *W, scenario string, race bool) {
 			}
 			continue
 		}
+		if crash == nil && (strings.Contains(line, "panic:") || strings.Contains(line, "fatal error:") || strings.Contains(line, "DATA RACE") || strings.Contains(line, "race detected")) {
+			crash = []string{} // the crash report starts here: keep its first lines (a goroutine dump can be very long)
+		}
+		if crash != nil && len(crash) < 40 {
+			crash = append(crash, line)
+		}
 		tail = append(tail, line)
 		if len(tail) > 25 {
 			tail = tail[1:]
@@ -87,8 +94,8 @@ func (r *Run) RunCold(w *W, scenario string, race bool) {
 	}
 	if err != nil && !reported {
 		text := strings.Join(tail, "\n")
-		if strings.Contains(text, "panic:") || strings.Contains(text, "fatal error:") || strings.Contains(text, "DATA RACE") {
-			w.Fail(ColdCase{Cold: scenario}, "cold-start-crash", "fresh process with first calls "+scenario+" died: "+truncate(text, 1500))
+		if crash != nil {
+			w.Fail(ColdCase{Cold: scenario}, "cold-start-crash", "fresh process with first calls "+scenario+" died: "+truncate(strings.Join(crash, "\n"), 2500))
 		} else {
 			r.Inconclusive("cold start scenario " + scenario + ": child failed without a report: " + truncate(text, 300))
 		}
@@ -107,4 +114,39 @@ func (r *Run) ReplayCold() bool {
 	}
 	r.Serial(func(w *W) { r.RunCold(w, cc.Cold, false); w.Eval(true) })
 	return true
+}
+
+// ColdMain is the body of a check package's TestColdStart: in a cold-start child it makes the scenario's call the first
+// library call of the process, then judges the battery and reports.
+func ColdMain(t *testing.T, id string, first map[string]func(), battery func(w *W)) {
+	scenario := ColdScenario()
+	if scenario == "" {
+		t.Skip("not a cold-start child")
+	}
+	r := Start(id)
+	w := r.NewW()
+	f, ok := first[scenario]
+	if !ok {
+		t.Fatalf("unknown cold scenario %q", scenario)
+	}
+	w.Guard(map[string]string{"first_call": scenario}, f)
+	battery(w)
+	ColdReport(t, w)
+}
+
+// ColdPhase runs every scenario of first (in sorted order) in its own fresh process.
+func (r *Run) ColdPhase(first map[string]func()) {
+	names := make([]string, 0, len(first))
+	for n := range first {
+		names = append(names, n)
+	}
+	sort.Strings(names)
+	r.Phase(fmt.Sprintf("cold start: %d scenarios (which library call comes first in a fresh process), each followed by a battery of ordinary cases", len(names)), func() {
+		r.Serial(func(w *W) {
+			for _, sc := range names {
+				r.RunCold(w, sc, false)
+				w.EvalRandom(Hash64("cold", sc), true)
+			}
+		})
+	})
 }
